@@ -11,7 +11,11 @@ fn open_out(job: &Value, profile: &str) -> Out {
     let unspec = job["unspec"].as_str().map(|p| std::io::BufWriter::new(std::fs::OpenOptions::new().create(true).append(true).open(p).unwrap()));
     Out { findings: f("out"), events: f("events"), hb, unspec, stats: Stats::default(),
           event_every: job["event_every"].as_u64().unwrap_or(0), event_cap: job["event_cap"].as_u64().unwrap_or(0), profile: profile.to_string(),
-          scope: Scope::from_job(job) }
+          scope: Scope::from_job(job),
+          vocab_for_events: if job["parser_events"].as_bool().unwrap_or(false) {
+              call::RECORD_EVENTS.store(true, std::sync::atomic::Ordering::Relaxed);
+              job["vocab"].as_str().map(vocab::Vocab::load)
+          } else { None } }
 }
 
 fn write_stats(job: &Value, out: &mut Out, done: bool) {
